@@ -29,6 +29,7 @@ type Case struct {
 	Value  *V     `json:"value"`
 	Full   bool   `json:"full"`
 	Sum    bool   `json:"sum"`
+	Canon  bool   `json:"canon,omitempty"`
 	Enc    int    `json:"enc"`
 	Label  string `json:"label"`
 	Kind   string `json:"kind"` // intact | prefix | trailing-00 | trailing-value
@@ -37,7 +38,7 @@ type Case struct {
 	Hex    string `json:"hex,omitempty"`
 }
 
-func (c *Case) mode() mode { return mode{full: c.Full, sum: c.Sum} }
+func (c *Case) mode() mode { return mode{full: c.Full, sum: c.Sum, canon: c.Canon} }
 
 func shortHex(b []byte) string {
 	if len(b) <= 48 {
@@ -57,16 +58,19 @@ func run(r *core.Run) {
 	r.Assume("csv has no notion of trailing data; jsonl: a second value is one more line, not trailing data; toml: a document is one table, so only the 0x00 trailer applies")
 	r.Assume("byte string leaves hold printable ASCII so that the documented bytes-as-string representation is exact")
 
+	r.Extra("enumeration", map[string]any{
+		"leaves": "null,false,true; 31 integers on the fixint/8/16/32/64 bit boundaries incl. -2^63, 2^64-1 and (where the format allows) -2^63-1, -2^64, 2^64; floats +0,0.5,-0,2^-24,2^-149,2^-1074,+inf,-inf,NaN; strings and byte strings of 0,1,31,32,255,256,65535,65536 bytes; [] and {} - filtered per format",
+		"values": core.Pick(r, "all values with <= 3 nodes (3 node values without the 64 KiB strings)", "all values with <= 4 nodes") + " + arrays/maps of n zeros for n in {0,1,15,16,23,24,31,32,33,255,256}",
+		"encodings": core.Pick(r,
+			"1 and 2 node values and the grid: full product of every wire form of every node incl. every <=2 chunk split of strings <= 64 bytes (boundary splits for longer ones); 3 node values: every form of every node and container header while the other nodes keep their shortest form",
+			"<= 3 node values: full product of every wire form of every node; 4 node values: the shortest encoding"),
+		"truncation":    "every proper byte prefix (including the empty input) of every encoding <= 64 bytes through pkg/decode directly; additionally through from_F for the one node values and the first encoding of the two node values",
+		"trailing_data": "one 0x00 byte, and a second copy of the value, after every encoding: direct decode (text: must fail; binary: exactly one root gap field over the extra bits and an otherwise identical tree) and, for 1/2 node values and the grid up to 4 KiB, through jq (torepr unchanged, ._gap fields, tovalue of the tree)",
+	})
 	only := os.Getenv("VERIF_ONLY")
 	t0 := time.Now()
 	if r.ShardIdx == 0 && (only == "" || only == "selftest") {
 		selfTest(r)
-	}
-	if only == "bench" {
-		if r.ShardIdx == 0 {
-			bench(r)
-		}
-		return
 	}
 	if only == "count" {
 		if r.ShardIdx == 0 {
@@ -74,7 +78,7 @@ func run(r *core.Run) {
 				cs := sp.cases(r.Thorough())
 				var n, tr, small int64
 				for _, vc := range cs {
-					set := sp.encs(vc.v, vc.m)
+					set := sp.encSet(vc.v, vc.m)
 					c := set.Count()
 					n += int64(c)
 					for i := 0; i < c; i++ {
@@ -145,7 +149,7 @@ func replay(r *core.Run, raw json.RawMessage) bool {
 	sub := core.NewScratchRun(r)
 	rn := newRunner(sub, sp)
 	rn.verbose = true
-	set := sp.encs(c.Value, c.mode())
+	set := sp.encSet(c.Value, c.mode())
 	if c.Enc >= set.Count() {
 		fmt.Println("encoding index out of range")
 		return false
